@@ -117,6 +117,26 @@ def run(res, tier, replay):
         scns.append(sc); meta.append(("dmg-hist", 8000 + di, order))
         for m_ in range(len(lens)):
             scns.append(scenario.Scn().file("in0.cab", bytes(cab)).op("cab_new").op("cab_open", "c0", "in0.cab").op("cab_extract", "c0", m_, "ref")); meta.append(("dmg-ref", 8000 + di, m_))
+    # directed (own generator state): a CHM whose second reset interval is damaged; a member that begins behind the damage in that interval first
+    # (the error comes up while the decoder silently skips to the member), then members of the next, intact interval and of the first one
+    for di in range(2):
+        import struct as _st
+        r8 = random.Random(80 + di)
+        f1 = [(b"/c0.bin", 3000), (b"/c1.bin", 67000), (b"/c2.bin", 75000), (b"/c3.bin", 5000), (b"/c4.bin", 900)]
+        chm, exp = chmfmt.build([(b"/a.txt", b"hello")], f1, r8, chunk_size=4096, wbits=16, reset_frames=2, with_rtable=True, lzx_btypes=([1, 2] if di == 0 else None))
+        stream = exp[chmfmt.CONTENT][3]; rt = exp[chmfmt.RTABLE][3]
+        offs = [_st.unpack_from("<Q", rt, 0x28 + 8 * k)[0] for k in range(_st.unpack_from("<I", rt, 4)[0])]
+        at = chm.find(stream); b = bytearray(chm)
+        if at < 0 or len(offs) < 5: continue
+        for k in range(offs[2] + 4, min(offs[2] + 1500, offs[3])): b[at + k] = 0xFF          # the first frame of the second interval
+        names = sorted([k for k in exp if not k.startswith(b"::")], key=chmfmt.sort_key)
+        ix = lambda nm: names.index(nm)
+        order = [ix(b"/c2.bin"), ix(b"/c3.bin"), ix(b"/c0.bin"), ix(b"/c4.bin"), ix(b"/c2.bin"), ix(b"/c4.bin"), ix(b"/c3.bin")]
+        sc = scenario.Scn().file("in0.chm", bytes(b)).op("chm_new").op("chm_open", "h0", "in0.chm")
+        for j, m_ in enumerate(order): sc.op("chm_extract", "h0", m_, "o%d_%d" % (j, m_))
+        scns.append(sc); meta.append(("chm-hist", 9500 + di, order))
+        for m_ in range(len(names)):
+            scns.append(scenario.Scn().file("in0.chm", bytes(b)).op("chm_new").op("chm_open", "h0", "in0.chm").op("chm_extract", "h0", m_, "ref")); meta.append(("chm-ref", 9500 + di, m_))
     # one decompressor used for two sets in a row (allocator that hands freed blocks out again): the first set is closed through its head
     # while the data file read last belongs to a later part; nothing of it may reach the second set's members
     for i in range(3 if tier == "quick" else 20):
